@@ -121,7 +121,7 @@ func (w *websocket) message() {
 // Reads one message. The connection's read limit bounds the bytes of a frame
 // on the wire; what permessage-deflate inflates them to is bounded here.
 func (w *websocket) readMessage(read types.BufferInterface, message io.Reader) error {
-	limit := w.MaxHttpBufferSize()
+	limit := w.socket.MaxPayload
 	if limit <= 0 {
 		_, err := read.ReadFrom(message)
 		return err
